@@ -176,7 +176,9 @@ class TwoDirectories(object):
                 'directory\'s')
 
     def blocks(self, tier):
-        return [{'f1': f} for f in ('COMMON-MIB', 'COMMON-MIB.txt', 'common-mib.mib', 'COMMON-MIB.my')]
+        return [{'f1': f} for f in ('COMMON-MIB', 'COMMON-MIB.txt', 'common-mib.mib', 'COMMON-MIB.my',
+                                    # ... or further down in the first directory's tree (a source is searched recursively)
+                                    'vendor/COMMON-MIB.txt', 'vendor/acme/COMMON-MIB', 'a/b/c/common-mib.mib')]
 
     def cases(self, block, tier):
         for second in ('index', 'regular'):
@@ -204,6 +206,8 @@ class TwoDirectories(object):
             for b in env.BASE_NAMES:
                 with open(os.path.join(d1, b), 'w') as f:
                     f.write(env.base_text(b))
+            if '/' in case['f1']:
+                os.makedirs(os.path.join(d1, os.path.dirname(case['f1'])))
             with open(os.path.join(d1, case['f1']), 'w') as f:
                 f.write(mod('COMMON-MIB', 1000))
             if case['second'] == 'index':
